@@ -457,7 +457,8 @@ pub fn build_case(seed: u64, i: usize, thorough: bool) -> Built {
     }
     let mut argv = opts.argv();
     // sometimes name the directory instead of files
-    if mode == "generated" && r_mode.chance(1, 10) {
+    let list_dir = base.sub("env-dir").chance(1, 3);
+    if mode == "generated" && (r_mode.chance(1, 10) || (list_dir && base.sub("env").chance(1, 8))) {
         argv.push(".".into());
         plan.dirseed = r_fault.next_u64() | 1;
         configured.push("dir-order".into());
@@ -468,7 +469,10 @@ pub fn build_case(seed: u64, i: usize, thorough: bool) -> Built {
     // follows an include: an empty file, names in another case, names that are not UTF-8
     let mut world = world;
     if mode.starts_with("generated") && r_env.chance(1, 8) {
-        match r_env.usize(4) {
+        match r_env.usize(7) {
+            4 => world.put("old.@RAW:ff@bak", "x\n"),
+            5 => world.put("notes.r@RAW:e9@sum@RAW:e9@", "latin-1 name\n"),
+            6 => world.put("caf@RAW:e9@.circom", "pragma circom 2.0.0;\ntemplate Cafe() { signal input a; }\n"),
             0 => world.put("empty_stub.circom", ""),
             1 => world.put("MAIN.CIRCOM", "pragma circom 2.0.0;\ntemplate Upper() { signal input a; }\n"),
             2 => world.put("notes.CIRCOM", "not circom at all\n"),
